@@ -84,6 +84,9 @@ def make_run(seed, i):
     srng = seeds.derive(seed, PROP, i, "schedule")
     sched = {"seed": srng.getrandbits(48), "mean_gap": srng.choice([2, 3, 10, 30, 100, 300, 1000, 3000]),
              "p_target": srng.choice([0.0, 0.2, 0.5]), "p_first": srng.choice([0.0, 0.3, 0.7])}
+    if shared_registry:
+        # shared default objects are where lazy first-use initialisation lives: always use the first-call bias here
+        sched["p_first"] = 0.7
     return {"specs": specs, "sched": sched}
 
 
@@ -197,7 +200,7 @@ def minimise(pool, run, res, refs, bad):
 
 def run(ctx):
     rep = ctx.reporter(PROP, LEVEL)
-    n_runs = {"quick": 700, "thorough": 30000}[ctx.tier]
+    n_runs = {"quick": 1300, "thorough": 40000}[ctx.tier]
     n_runs = int(n_runs * ctx.scale)
     runs = [make_run(ctx.seed, i) for i in range(n_runs)]
     distinct = set()
